@@ -48,6 +48,20 @@ EU_C10_Docs == SetToSeq({SD("dict", NoVal, <<<<EU_KA, x>>, <<EU_KB, y>>, <<EU_KC
                          : x \in EU_Val10, y \in EU_Val10, z \in EU_Use})
 EU_C10_DocsS == SetToSeq({SD("dict", NoVal, <<<<EU_KA, x>>, <<EU_KB, y>>>>) : x \in EU_Val10F, y \in EU_Val10F})
 EU_C10_DocsH == SetToSeq({SD("dict", NoVal, <<<<EU_KA, x>>, <<EU_KB, y>>>>) : x \in EU_Val10, y \in EU_Val10})
+\* consumers that are EVALUATED EXPRESSIONS: `!eval <name>` (ref = the top-level key of that name, see AyEval), in every
+\* order of the three keys: the name may be evaluated already, not at all, or only partly (something below it was
+\* referenced before: ecfg holds an unfinished placeholder), or be the node's own ancestor
+EU_EvalN(key) == [SD("eval", Atom("s", key), <<>>) EXCEPT !.form = "tag", !.ref = <<SKey(key)>>]
+EU_EX == {EU_XRef(<<EU_KC, EU_KA>>), EU_XRef(<<EU_KB>>), EU_L("1")}
+EU_EY == {EU_EvalN("c"), EU_EvalN("a"), EU_Call(<<<<EU_KA, EU_EvalN("c")>>>>), SD("dict", NoVal, <<<<EU_KA, EU_EvalN("c")>>>>), EU_XRef(<<EU_KC>>)}
+EU_EZ == {SD("dict", NoVal, <<<<EU_KA, EU_Call(<<>>)>>>>), SD("dict", NoVal, <<<<EU_KA, EU_L("1")>>, <<EU_KB, EU_Call(<<>>)>>>>),
+          EU_Call(<<>>), EU_L("1"), EU_EvalN("a"), EU_EvalN("b"),
+          SD("dict", NoVal, <<<<EU_KA, EU_L("1")>>, <<EU_KB, EU_EvalN("c")>>>>)}
+EU_Perm3 == {<<1, 2, 3>>, <<1, 3, 2>>, <<2, 1, 3>>, <<2, 3, 1>>, <<3, 1, 2>>, <<3, 2, 1>>}
+EU_C10_DocsE == SetToSeq({ LET e == <<<<EU_KA, x>>, <<EU_KB, y>>, <<EU_KC, z>>>>
+                           IN SD("dict", NoVal, <<e[pi[1]], e[pi[2]], e[pi[3]]>>)
+                           : x \in EU_EX, y \in EU_EY, z \in EU_EZ, pi \in EU_Perm3 })
+
 \* later stages overwriting / deleting any subset of the dynamic nodes
 EU_DelKey == WithTag(SD("scalar", Atom("n", ""), <<>>), "del")
 EU_Over == {EU_L("2"), EU_DelKey, EU_Call(<<>>), SD("dict", NoVal, <<<<EU_KA, EU_L("2")>>>>), SD("list", NoVal, <<>>)}
